@@ -26,5 +26,5 @@ def run(ctx):
         "unbuffered channels / select / close behave as in DESIGN Appendix B (atomic claim of a parked select by close)",
         "promptness is observed with time-outs (calls must return within 2 s of Close) in child processes",
     ]
-    common.standard(ctx, "GopModel.Props.C41", "c41", 1200, 12000, RULE,
+    common.standard(ctx, "GopModel.Props.C41", "c41", 1200, 60000, RULE,
                     extract=("sync_fakenet",), driver="drv_conc")
